@@ -8,6 +8,18 @@ CHECKS = {
          "Exploration: tens of thousands (quick) to millions (thorough) of generated module sets that the real load+compile accepts are evaluated and turned into YAML; a panic, abort, stack overflow or CPU-limit is a violation, a located error value is not. The generators cover the full language incl. multi-module programs, functions, recursion, references and the kind confusions the checker's coarse tags admit. Four root causes are known findings (F1-F4) with narrow signatures; anything else fails the check.",
          "Trusts the in-memory Loader wrapper (it calls the real parse and compile) and the structural labels computed through oal's public syntax API that serve as preconditions of the known findings.",
          "DESIGN.md §4 C01"),
+ "C11": ("generated programs with random trivia, mutants and arbitrary text; tiling / re-lex / leaf-sequence / hull / span-bounds invariants",
+         "Exploration: for every generated text the token ranges must tile the text, each token's value must be its source slice and re-lex alone, the tree's leaves must be exactly the non-trivia tokens of the parsed prefix, each node's span the hull of its leaves, and every span on a syntax/compile/eval error or definition must lie in a module on character boundaries. Both directions are checked (nothing missing, nothing invented).",
+         "Trusts TokenList's public cursor API as the observation of the token stream, and the harness's own span arithmetic.",
+         "DESIGN.md §4 C11"),
+ "C12": ("exhaustive short token sequences + random/nested token lists; differential cached vs. uncached parse, calibrated linear work bound",
+         "Exploration with an exhaustive core: all token sequences up to length 4 (quick) / 6 (thorough) over a 15-kind alphabet are parsed with and without the memo table from three entry points and the structural dumps compared; beyond that, random sequences, nesting to depth 1000 and generated programs must stay under 64 token reads per token (observed maximum ~21).",
+         "Needs hook H2 (Context::work). The uncached reference parse is only feasible for nesting <= 4 or < 11 tokens; the linear constant is calibrated on the unchanged tree with 3x head-room.",
+         "DESIGN.md §4 C12"),
+ "C16": ("exhaustive small-scope enumeration of texts x offsets x positions against an independent reference conversion, plus random long texts",
+         "Exploration with an exhaustive core: every text of <= 5 (quick) / 6 (thorough) units over {a, 2-, 3-, 4-byte char, LF, CRLF}, every boundary offset, every position incl. out-of-range ones and every span is converted by the real functions and by a reference written from the LSP text; 30+ million conversions per quick run.",
+         "Needs hook H3 (public wrappers of the pub(crate) functions). Offsets strictly inside a CRLF and columns inside a surrogate pair are outside the domain (the protocol gives them no meaning).",
+         "DESIGN.md §4 C16"),
  "C04": ("grammar-aware text fuzzing + exhaustive short token sequences, crash/hang oracle over four front ends",
          "Exploration: every token-kind sequence up to length 3 (all 54 kinds) / 5 (reduced alphabet), plus hundreds of thousands of generated texts, mutants and nesting templates are pushed through parse, the playground entry point, the real oal-cli and the real oal-lsp; any panic, abort, stack overflow, CPU-limit or wrong exit status is a violation. It cannot show absence of crashing inputs outside the explored set.",
          "Trusts the OS process model (exit status, signals, RLIMIT_CPU) and that the harness's own text splitter is only used for non-triviality counting. Known-finding signatures are matched narrowly (panic file + message head + structural label).",
